@@ -25,6 +25,21 @@ ENUM_POOLS = (
 )
 
 
+def enum_flavour(members, rng):
+    """plain Enum, or - when every value has the one kind - a data-type mix-in / IntEnum / StrEnum."""
+    kinds = {type(v) for _, v in members}
+    if rng.random() < 0.5 or len(kinds) != 1:
+        return 'plain'
+    (k,) = kinds
+    if k is str:
+        return rng.choice(('strmix', 'StrEnum'))
+    if k is int:
+        return rng.choice(('intmix', 'IntEnum'))
+    if k is float:
+        return 'floatmix'
+    return 'plain'
+
+
 def gen_leaf(rng, hashable=False, allow=None):
     pool = HASHABLE_LEAVES if hashable else LEAVES
     if allow is not None:
@@ -45,7 +60,8 @@ def _leaf(k, rng):
         n = rng.randint(1, len(pool))
         return Ty('lit', vals=tuple(pool[:n]))
     if k == 'enum':
-        return Ty('enum', members=rng.choice(ENUM_POOLS), missing_hook=rng.random() < 0.25)
+        members = rng.choice(ENUM_POOLS)
+        return Ty('enum', members=members, missing_hook=rng.random() < 0.25, flavour=enum_flavour(members, rng))
     return Ty(k)
 
 
